@@ -267,6 +267,16 @@ impl MT104 {
             });
         }
 
+        // Sequence B is mandatory: without a transaction the message is incomplete
+        if transactions.is_empty() {
+            return Err(crate::errors::ParseError::MissingRequiredField {
+                field_tag: "21".to_string(),
+                field_name: "21".to_string(),
+                message_type: "104".to_string(),
+                position_in_block4: Some(parser.position()),
+            });
+        }
+
         // Parse Sequence C (optional settlement details)
         let field_32b = parser.parse_optional_field::<Field32B>("32B")?;
         let field_19 = parser.parse_optional_field::<Field19>("19")?;
